@@ -177,6 +177,7 @@ type instInfo struct {
 	msgs     []int // every message taken from its channel, in order
 	termOps  int   // terminal messages the ops applied to it must have produced
 	countOK  bool
+	cancelledWaiting bool // CancelQuery reached it while it was still in the waiting queue
 }
 
 type seqRunner struct {
@@ -326,11 +327,26 @@ func (sr *seqRunner) doPull(full bool) {
 	sr.record(StepRec{Op: "pull", Out: out}, full, out == outOk)
 }
 
+func countEnts(v []query.VerifEntry, q uint64) int {
+	n := 0
+	for _, e := range v {
+		if e.Qid == q {
+			n++
+		}
+	}
+	return n
+}
+
 func (sr *seqRunner) doCancel(q uint64, full bool) {
 	p := query.VerifRunningQuery(q)
 	pre := -1
+	var pw *query.RunningQueryState
+	nw := 0
 	if p != nil {
 		pre = len(p.StateChan)
+	} else {
+		pw = query.VerifWaitingQuery(q)
+		nw = countEnts(query.VerifWaiting(), q)
 	}
 	query.CancelQuery(q)
 	if p != nil {
@@ -345,6 +361,17 @@ func (sr *seqRunner) doCancel(q uint64, full bool) {
 		}
 		if !ok {
 			sr.fail("terminal_transition_missing", fmt.Sprintf("CancelQuery(%d) on a running query (channel %d/%d) did not set isCancelled and enqueue CANCELLED", q, pre, sr.chanCap))
+		}
+	} else if pw != nil {
+		// a query that has not started yet: it must leave the queue and be told CANCELLED
+		if ii := sr.inst[pw]; ii != nil {
+			ii.termOps++
+			ii.cancelledWaiting = true
+		}
+		if countEnts(query.VerifWaiting(), q) != nw-1 || query.VerifWaitingQuery(q) == pw {
+			sr.fail("cancel_waiting_query_noop", fmt.Sprintf("CancelQuery(%d) while the query is in the waiting queue: it is still there (%d entries of that qid before, %d after)", q, nw, countEnts(query.VerifWaiting(), q)))
+		} else if len(pw.StateChan) != 1 {
+			sr.fail("terminal_transition_missing", fmt.Sprintf("CancelQuery(%d) of a waiting query took it out of the queue but its channel holds %d messages instead of CANCELLED", q, len(pw.StateChan)))
 		}
 	}
 	sr.record(StepRec{Op: "cancel", Q: q, Out: outNone}, full, false)
@@ -374,11 +401,18 @@ func (sr *seqRunner) doExec(q uint64, complete bool, full bool) {
 
 func (sr *seqRunner) doDelete(q uint64, full bool) {
 	wasRunning := query.VerifRunningQuery(q) != nil
-	wasWaiting := inEnts(query.VerifWaiting(), q)
+	nw := countEnts(query.VerifWaiting(), q)
+	pw := query.VerifWaitingQuery(q)
 	query.DeleteQuery(q)
-	if wasRunning && !wasWaiting {
+	if wasRunning && nw == 0 {
 		if query.VerifRunningQuery(q) != nil || inEnts(query.VerifWaiting(), q) {
 			sr.fail("entry_leaked_after_terminal", fmt.Sprintf("DeleteQuery(%d) of a query in allRunningQueries left an entry in the tables", q))
+		}
+	}
+	if !wasRunning && nw > 0 {
+		// a query that has not started yet must leave the queue (and never be started)
+		if countEnts(query.VerifWaiting(), q) != nw-1 || query.VerifWaitingQuery(q) == pw {
+			sr.fail("cancel_waiting_query_noop", fmt.Sprintf("DeleteQuery(%d) while the query is in the waiting queue: it is still there (%d entries of that qid before, %d after)", q, nw, countEnts(query.VerifWaiting(), q)))
 		}
 	}
 	sr.record(StepRec{Op: "delete", Q: q, Out: outNone}, full, true)
@@ -472,6 +506,13 @@ func (sr *seqRunner) checkMessages() {
 		if len(ii.msgs) == 0 {
 			continue
 		}
+		if ii.cancelledWaiting {
+			// never started: exactly one CANCELLED
+			if len(ii.msgs) != 1 || ii.msgs[0] != 5 {
+				sr.fail("two_terminal_states", fmt.Sprintf("qid %d was cancelled while waiting but its message log is %v (expected just CANCELLED)", ii.qid, ii.msgs))
+			}
+			continue
+		}
 		if len(ii.msgs) < 2 || ii.msgs[0] != 1 || ii.msgs[1] != 2 {
 			sr.fail("two_terminal_states", fmt.Sprintf("qid %d: message log %v does not begin with READY, RUNNING", ii.qid, ii.msgs))
 			continue
@@ -527,9 +568,6 @@ func runSeq(spec SeqSpec) *SeqResult {
 	sr.armedAt = time.Now()
 	r := sr.r
 	pick := func() uint64 { return spec.Base + uint64(1+r.Intn(spec.Pool)) }
-	waitingOnly := func(q uint64) bool {
-		return query.VerifRunningQuery(q) == nil && inEnts(query.VerifWaiting(), q)
-	}
 	switch spec.Kind {
 	case "main", "timeout", "bgpull":
 		for i := 0; i < spec.Steps; i++ {
@@ -541,15 +579,11 @@ func runSeq(spec SeqSpec) *SeqResult {
 			case x < 48:
 				sr.doPull(true)
 			case x < 60, x < 72:
-				// Cancel / Delete of a query that is only in the waiting queue is the known defect
-				// class; the main stream stays clear of it (the known stream does exactly that)
-				if waitingOnly(q) {
-					sr.doPull(true)
-					continue
-				}
+				// Cancel / Delete also hit queries that are still in the waiting queue (class
+				// cancel_waiting_query_noop, repaired: a regression is reported from here as well)
 				if x < 60 {
 					if p := query.VerifRunningQuery(q); p != nil && len(p.StateChan) >= sr.chanCap-1 {
-						sr.doRecv(q, true) // a cancel on a full channel blocks: known stream only
+						sr.doRecv(q, true) // a cancel on a full channel makes the caller (the harness) wait: own process only
 						continue
 					}
 					sr.doCancel(q, true)
@@ -597,9 +631,9 @@ func runSeq(spec SeqSpec) *SeqResult {
 			sr.doDelete(target, true)
 		}
 		still := inEnts(query.VerifWaiting(), target)
-		// make room and pull until the target is admitted
+		// make room and pull until the target is admitted or the queue is empty
 		admitted := false
-		for i := 0; i < 40 && !admitted; i++ {
+		for i := 0; i < 40 && !admitted && len(query.GetWaitingQueries()) > 0; i++ {
 			for _, e := range query.VerifRunning() {
 				if e.Qid != target {
 					sr.doDelete(e.Qid, true)
@@ -608,21 +642,22 @@ func runSeq(spec SeqSpec) *SeqResult {
 			sr.doPull(true)
 			admitted = query.VerifRunningQuery(target) != nil
 		}
-		if still && admitted {
-			p := query.VerifRunningQuery(target)
-			canc := false
-			for _, e := range query.VerifRunning() {
-				if e.Qid == target {
-					canc = e.Cancelled
+		if still || admitted {
+			canc, first := false, -1
+			if admitted {
+				for _, e := range query.VerifRunning() {
+					if e.Qid == target {
+						canc = e.Cancelled
+					}
 				}
+				sr.doRecv(target, true)
+				first = res.Steps[len(res.Steps)-1].Out - 10
 			}
-			sr.doRecv(target, true)
-			last := res.Steps[len(res.Steps)-1].Out
 			what := "CancelQuery"
 			if spec.Kind == "known_delete" {
 				what = "DeleteQuery"
 			}
-			sr.fail("cancel_waiting_query_noop", fmt.Sprintf("StartQuery(%d, forceRun=false); %s(%d) while it is in the waiting queue: still waiting afterwards, later admitted by the puller (isCancelled=%v, first message code %d = READY, channel %p)", target, what, target, canc, last-10, p))
+			sr.fail("cancel_waiting_query_noop", fmt.Sprintf("StartQuery(%d, forceRun=false); %s(%d) while it is in the waiting queue: still waiting afterwards=%v, later admitted by the puller=%v (isCancelled=%v, first message code %d, 1 = READY)", target, what, target, still, admitted, canc, first))
 		}
 		sr.cleanup(true)
 	case "known_watcher":
@@ -1795,7 +1830,6 @@ func main() {
 		kb = append(kb, mk([]string{"known_cancel", "known_delete"}[i%2], 30000+i))
 	}
 	kb = append(kb, mk("known_watcher", 31000))
-	knownBatch := len(batches)
 	batches = append(batches, kb)
 
 	// ---- run everything in parallel worker processes ----
@@ -2001,7 +2035,7 @@ func main() {
 			traces = traces[k:]
 		}
 	}
-	for bi, so := range outs {
+	for _, so := range outs {
 		if so == nil {
 			continue
 		}
@@ -2035,10 +2069,6 @@ func main() {
 			sum.Count(fmt.Sprintf("max_running/%d", res.Spec.Mx))
 			sum.Eval(key.String(), waited && term)
 			for _, f := range res.Fails {
-				if bi != knownBatch && (f.Class == "cancel_waiting_query_noop" || f.Class == "cancelled_query_watcher_lingers") {
-					// cannot happen: the main stream never cancels a waiting query
-					f.Class = f.Class + "_in_main_stream"
-				}
 				sum.Fail(f.Class, f.Detail, f.Case)
 			}
 			if len(sum.Samples) < 2 && res.Spec.Kind == "main" {
@@ -2060,17 +2090,20 @@ func main() {
 	if wedgeOK {
 		sum.Eval("wedge", true)
 		sum.Count("seq/wedge")
-		if wedge.CancelBlocked && wedge.CancelsReturned == 8 {
-			sum.Fail("cancel_blocks_on_full_state_channel", fmt.Sprintf("StartQuery(1, forceRun=true) with no consumer; CancelQuery(1) x9: %d calls return, the 9th blocks in `StateChan <- CANCELLED` (10/10) while holding waitingQueriesLock; a StartQuery of another query blocked=%v (holding arqMapLock), DeleteQuery of a third qid blocked=%v; everything resumed after one receive=%v", wedge.CancelsReturned, wedge.OtherStartBlocked, wedge.CountBlocked, wedge.ReleasedByRecv),
-				map[string]interface{}{"ops": "Start 1 false true; Cancel 1 x9"})
-		} else if wedge.CancelsReturned != 9 {
-			sum.Fail("cancel_blocks_unexpectedly", fmt.Sprintf("cancel scenario: %d of 9 cancels returned, blocked=%v (model: exactly 8 return)", wedge.CancelsReturned, wedge.CancelBlocked), nil)
+		// repaired class cancel_blocks_on_full_state_channel: the 9th cancel may wait for the
+		// receiver (CANCELLED is sent with no lock held), but no OTHER query may be blocked by it
+		if wedge.OtherStartBlocked || wedge.CountBlocked {
+			sum.Fail("cancel_blocks_on_full_state_channel", fmt.Sprintf("StartQuery(1, forceRun=true) with no consumer; CancelQuery(1) x9: %d calls return, the 9th waits in `StateChan <- CANCELLED` (10/10); meanwhile StartQuery of another query blocked=%v, DeleteQuery of a third qid blocked=%v (a table lock is held across the send); everything resumed after one receive=%v", wedge.CancelsReturned, wedge.OtherStartBlocked, wedge.CountBlocked, wedge.ReleasedByRecv),
+				map[string]interface{}{"ops": "Start 1 false true; Cancel 1 x9; Start 2 false false; Delete 3"})
 		}
-		// the model's prediction for this history is checked in Coq as well
+		if wedge.CancelsReturned < 8 {
+			sum.Fail("cancel_blocks_unexpectedly", fmt.Sprintf("cancel scenario: only %d of the first 8 cancels returned although the channel had room", wedge.CancelsReturned), nil)
+		}
+		// the model's prediction for this history is checked in Coq as well: nobody else is blocked
 		sum.WriteCaseFile(cfg.Out, "cases_wedge", "From SigM Require Import Base QueryLife QueryLifeCheck.",
-			fmt.Sprintf("Definition h (k : nat) := Start 1 false true :: repeat (Cancel 1) k.\nDefinition blocked8 := wedged (run 2 init (h 8)).\nDefinition blocked9 := wedged (run 2 init (h 9)).\nDefinition obs8 := %s.\nDefinition obs9 := %s.\n",
-				vhlib.CoqBool(wedge.CancelsReturned < 8), vhlib.CoqBool(wedge.CancelBlocked)),
-			"(if Bool.eqb blocked8 obs8 then [] else [8%nat]) ++ (if Bool.eqb blocked9 obs9 then [] else [9%nat])", 1)
+			fmt.Sprintf("Definition h (k : nat) := Start 1 false true :: repeat (Cancel 1) k.\nDefinition others_blocked := wedged (run 2 init (h 9)).\nDefinition room8 := Nat.eqb (length (concat (map e_chan (running (run 2 init (h 8)))))) 10.\nDefinition obs_blocked := %s.\nDefinition obs8 := %s.\n",
+				vhlib.CoqBool(wedge.OtherStartBlocked || wedge.CountBlocked), vhlib.CoqBool(wedge.CancelsReturned >= 8)),
+			"(if Bool.eqb others_blocked obs_blocked then [] else [9%nat]) ++ (if Bool.eqb room8 obs8 then [] else [8%nat])", 1)
 	} else {
 		sum.HarnessError("wedge worker gave no result")
 	}
